@@ -2,15 +2,15 @@
    The global ignore text is COMMON_IGNORE_PATTERNS as the translator read it from
    core/src/util/xvcignore.rs; the special names are XVC_DIR and ".git". *)
 From Coq Require Import List NArith Bool Lia Permutation.
-From XV Require Import Glob.Match Glob.Pattern Glob.Proofs Walker.Model Walker.Proofs Gen.CommonIgnore.
+From XV Require Import Glob.Match Glob.Pattern Glob.Proofs Glob.LastComponent Walker.Model Walker.Proofs Gen.CommonIgnore.
 Import ListNotations.
 Open Scope N_scope.
 
 Definition is_special (n : name) : bool := bytes_eqb n xvc_dir_name || bytes_eqb n git_dir_name.
 
 (* What the walker needs from the matcher: the glob "**/<name>" matches every path whose last component
-   is <name>.  (For the transliterated fast-glob matcher this is checked by evaluation on sample paths
-   in Props/C09.v and by the glob correspondence; it is not proved for all paths.) *)
+   is <name>.  The transliterated fast-glob matcher has this property ([glob_matches_finds_last_component],
+   from Glob/LastComponent.v). *)
 Definition matcher_finds_last_component (gm : bytes -> bytes -> bool) : Prop :=
   forall p n, is_special n = true -> gm (c_star :: c_star :: c_slash :: n) (render (p ++ [n])) = true.
 
@@ -58,4 +58,33 @@ Proof.
   destruct (par_walk_deterministic_lemma gm fixed common_ignore_patterns ign ch Hwf Hl nth sched Hn Hf) as [Hp _].
   apply (never_enters_xvc_git_lemma gm fixed ign ch x p n r Hm Hw); [|exact E].
   eapply Permutation_in; eassumption.
+Qed.
+
+(* ---- the transliterated matcher satisfies the hypothesis ------------------------------------------------- *)
+Lemma special_plain n : is_special n = true -> exists n0 n', n = n0 :: n' /\ Forall LastComponent.plain (n0 :: n').
+Proof.
+  unfold is_special. intros H. apply orb_true_iff in H as [H|H]; apply bytes_eqb_spec in H; subst n.
+  - eexists _, _. split; [reflexivity|]. repeat constructor.
+  - eexists _, _. split; [reflexivity|]. repeat constructor.
+Qed.
+
+Lemma glob_matches_finds_last_component : matcher_finds_last_component glob_matches.
+Proof.
+  intros p n Hs. destruct (special_plain n Hs) as (n0 & n' & -> & Hp).
+  rewrite render_app. cbn [render flat_map]. rewrite app_nil_r.
+  apply (glob_matches_last_component n0 n' Hp (render p)).
+Qed.
+
+Lemma never_enters_xvc_git_glob_lemma fixed ign ch x p n r :
+  whitelists_special glob_matches fixed ign ch = false ->
+  In x (spec_walk glob_matches fixed common_ignore_patterns ign ch) -> x = p ++ n :: r -> is_special n = false.
+Proof. exact (never_enters_xvc_git_lemma glob_matches fixed ign ch x p n r glob_matches_finds_last_component). Qed.
+
+Lemma par_never_enters_xvc_git_glob_lemma fixed ign ch nth sched x p n r :
+  wf_tree (Dir ign ch) = true -> local_rules glob_matches fixed ign ch -> (1 <= nth)%nat ->
+  whitelists_special glob_matches fixed ign ch = false ->
+  let c := par_walk glob_matches fixed nth common_ignore_patterns ign ch sched in
+  final c = true -> In x (c_out c) -> x = p ++ n :: r -> is_special n = false.
+Proof.
+  exact (fun Hwf Hl Hn => par_never_enters_xvc_git_lemma glob_matches fixed ign ch nth sched x p n r Hwf Hl Hn glob_matches_finds_last_component).
 Qed.
